@@ -34,6 +34,13 @@ for q, fi in sorted(repo.functions.items()):
 json.dump(rej, open(os.path.join(ref, "rejections.json"), "w"), indent=0, sort_keys=True)
 glob_names = sorted("%s.%s" % (m.name, n) for m in repo.modules.values() for n in m.assign_nodes)
 json.dump(glob_names, open(os.path.join(ref, "api_globals.json"), "w"), indent=0)
+from verif.rules.c20 import partial_operations, step_reachable
+tot, st = {}, {}
+for q in step_reachable(ck):
+    for kind, line, text in partial_operations(repo.raw_function(repo.functions[q])):
+        tot[kind] = tot.get(kind, 0) + 1
+        st.setdefault(kind, []).append([q, line, text])
+json.dump({"totals": tot, "sites": st}, open(os.path.join(ref, "step_partials.json"), "w"), indent=1, sort_keys=True)
 from verif.selftest.runner import tree_digest
 open(os.path.join(ref, "tree.sha256"), "w").write(tree_digest(repo.root) + "  skepticoin/**/*.py of the tree the corpora were confirmed on\n")
 print(len(table), "checkpoints; genesis", len(data), "bytes;", len(repo.functions), "functions")
